@@ -24,6 +24,22 @@ Oracles (the property itself, on the implementation's output):
    same neuron rescaled, and the same as the numeric argument `length / unit`;
  * metadata: `(units, name, id)` before == after for copy, re-wrap, reroot, cut, subset, prune_* functions and
    methods, heal, stitch, resample, downsample, make_dotprops, pickling, …
+
+Second pass (streams in harness/c15_ext.py, translator/gen_units.py → Gen/Units.lean):
+ (h) `hist`    physical quantities after a *history*: warm every cached view (igraph, networkx graph, segments, geodesic
+               matrix, cable length, simple) → 1-3 of `* / *= /= + - += -=` (numbers, 4-vectors, offsets) / `convert_units`,
+               re-warming in between → every distance-valued observable of the result (graph edge weights, cable length,
+               dist_to_root, dist_between, geodesic_matrix function + cached property, segment_length, sampling_resolution,
+               `.simple`, bbox, area, volume) under each back-end against (1) a cache-free rebuild, (2) the original × units,
+               (3) the Lean model `runHist` (`c15.hist`: resulting table, surviving caches, view contents, and the proved-sound
+               checkers `histPhysB / histPathB / histCableB` on navis' own numbers), (4) functions given '<n> microns'.
+ (h') `histmd` the same for MeshNeuron (trimesh / graphs) and Dotprops (KD-tree, > one leaf of points).
+ (s) `strsite` the remaining `map_units` call sites (cable_overlap, voxelize incl. per-axis pitch, average_skeletons,
+               split_into_fragments, tortuosity; thorough: mesh2skeleton) with strings, neuron in two units, every back-end.
+ (m) `mapx`    map_units on NeuronLists, `on_error`, function form, bare pint.Unit;  `nlarith` NeuronList `* /` and
+               `convert_units` against the members.
+ The metadata sweep additionally covers every method with `inplace=` that the translator finds in the four classes
+ (`Gen.Units.inplaceMethods`), in-place forms and NeuronList forms; uncovered methods / call sites become evidence notes.
 """
 import copy as _copy, math, pickle, warnings, itertools
 from fractions import Fraction
@@ -34,12 +50,14 @@ warnings.filterwarnings('ignore')
 import navis
 import pint
 from . import gen as G
+from . import c15_ext as E
 
 navis.config.pbar_hide = True
 navis.set_loggers('ERROR')
 ureg = navis.config.ureg
 
 TOL = 40            # relative tolerance 2^-40 (driver side)
+B_ALL = ['fastcore', 'igraph', 'networkx']
 KINDS = ['T', 'M', 'D', 'V']
 CLS = {'T': 'TreeNeuron', 'M': 'MeshNeuron', 'D': 'Dotprops', 'V': 'VoxelNeuron'}
 
@@ -577,7 +595,11 @@ def case_convert(ctx, case):
 LENGTHS = [['str', '5 microns'], ['str', '1 nm'], ['str', '0.5 um'], ['str', '2.5 micrometer'], ['str', '1 mm'],
            ['str', '300 nm'], ['str', '40 nanometers'], ['str', '1 micron'], ['qty', 5, 'um'], ['qty', 125, 'nm'],
            ['str', '1000 nm'], ['str', '1e3 nm'], ['str', '7 nm'], ['str', '1 nanometer'], ['str', '12.5 um'],
-           ['num', 5], ['num', 0.25], ['str', '3'], ['pintqty', 2, 'um'], ['str', '0.064 um'], ['str', '1 m']]
+           ['num', 5], ['num', 0.25], ['str', '3'], ['pintqty', 2, 'um'], ['str', '0.064 um'], ['str', '1 m'],
+           # zero, negative, very small, very large magnitudes
+           ['str', '0 nm'], ['str', '0 um'], ['qty', 0, 'um'], ['str', '0.0 microns'], ['str', '-5 nm'], ['qty', -2, 'um'],
+           ['num', 0], ['num', -5], ['str', '1e-12 nm'], ['str', '1e-7 nm'], ['str', '1e12 um'], ['str', '1e9 microns'],
+           ['str', '0.000001 nm'], ['qty', 1e-9, 'nm'], ['str', '5 km']]
 
 
 def length_arg(spec):
@@ -623,7 +645,10 @@ def case_map(ctx, case):
         ctx.corr('ok', ans.get('corr'), f"map_units({spec!r}) on {x.units!r}: impl={impl} model={ans.get('model')}", case)
     if v is None:
         ok = bool(x.units.dimensionless) or not x.is_isometric
-        ctx.oracle(ok, f'map_units({spec!r}) raised on a neuron with isometric length units {x.units!r}', case)
+        sig = 'map_units/non-positive-length/math-domain-error' if (not ok and phys is not None and phys <= 0) else None
+        ctx.oracle(ok, f'map_units({spec!r}) raised on a neuron with isometric length units {x.units!r}'
+                       + (' (a length of zero or below: round_smart calls math.log10 on it; the plain number passes through)' if sig else ''),
+                   case, signature=sig)
         return
     if phys is not None:
         um = fr(x.units_xyz.magnitude[0]) * Fraction(10) ** unit_exp(x.units_xyz.units)
@@ -746,6 +771,7 @@ def case_strarg(ctx, case):
         ctx.oracle(False, f'{fn}(x, {s!r}) raised {type(e).__name__}: {e} although the numeric argument {num} works', case)
         return
     ctx.count('strarg', fn)
+    ctx.count('map_sites_exercised', E.SITE_OF[fn.replace('prune_twigs_exact', 'prune_twigs')])
     ctx.oracle(result_sig(fn, ra) == result_sig(fn, rn),
                f'{fn}(x, {s!r}) on units {A.units!r} differs from the numeric argument {num}', case)
     ctx.oracle(result_sig(fn, ra) == result_sig(fn, rb),
@@ -816,7 +842,59 @@ TREE_OPS = [
     ('remove_nodes', 'oncopy', lambda x: navis.remove_nodes(x, [_interior(x)])),
     ('make_dotprops', 'construct', lambda x: navis.make_dotprops(x, k=min(3, x.n_nodes))),
     ('pickle', 'pickle', lambda x: pickle.loads(pickle.dumps(x))),
+    # second pass: remaining methods taking `inplace=` (Gen.Units.inplaceMethods), in-place forms, NeuronList forms
+    ('x.cell_body_fiber', 'oncopy', lambda x: _with_soma(x).cell_body_fiber(reroot_soma=False)),
+    ('cell_body_fiber', 'oncopy', lambda x: navis.cell_body_fiber(_with_soma(x), reroot_soma=False)),
+    ('x.prune_by_volume', 'oncopy', lambda x: x.prune_by_volume(_half_box(x))),
+    ('in_volume', 'oncopy', lambda x: navis.in_volume(x, _half_box(x), inplace=False)),
+    ('x.reroot(inplace)', 'oncopy', lambda x: _inpl(x, lambda y: y.reroot(_interior(y), inplace=True))),
+    ('x.prune_twigs(inplace)', 'oncopy', lambda x: _inpl(x, lambda y: y.prune_twigs(5, inplace=True))),
+    ('x.prune_distal_to(inplace)', 'reinitcut', lambda x: _inpl(x, lambda y: y.prune_distal_to(_interior(y), inplace=True))),
+    ('x.prune_proximal_to(inplace)', 'reinitcut', lambda x: _inpl(x, lambda y: y.prune_proximal_to(_interior(y), inplace=True))),
+    ('x.resample(inplace)', 'oncopy', lambda x: _inpl(x, lambda y: y.resample(2, inplace=True))),
+    ('x.downsample(inplace)', 'oncopy', lambda x: _inpl(x, lambda y: y.downsample(2, inplace=True))),
+    ('x.prune_by_strahler(inplace)', 'oncopy', lambda x: _inpl(x, lambda y: y.prune_by_strahler(1, inplace=True))),
+    ('x.prune_at_depth(inplace)', 'oncopy', lambda x: _inpl(x, lambda y: y.prune_at_depth(10, inplace=True))),
+    ('heal_skeleton(inplace)', 'oncopy', lambda x: _inpl(navis.subset_neuron(x, x.nodes.node_id.values[::2]), lambda y: navis.heal_skeleton(y, inplace=True))),
+    ('NeuronList.reroot', 'oncopy', lambda x: navis.NeuronList([x]).reroot([_interior(x)])[0]),
+    ('NeuronList.prune_twigs', 'oncopy', lambda x: navis.NeuronList([x, x.copy()]).prune_twigs(5)[0]),
+    ('prune_twigs(NeuronList)', 'oncopy', lambda x: navis.prune_twigs(navis.NeuronList([x, x.copy()]), 5)[1]),
+    ('resample_skeleton(NeuronList)', 'oncopy', lambda x: navis.resample_skeleton(navis.NeuronList([x, x.copy()]), 2)[0]),
+    ('NeuronList.downsample', 'oncopy', lambda x: navis.NeuronList([x, x.copy()]).downsample(2)[1]),
+    ('split_into_fragments[0]', 'oncopy', lambda x: navis.split_into_fragments(x, n=2)[0]),
+    ('longest_neurite(from_root=False)', 'oncopy', lambda x: navis.longest_neurite(x, 1, from_root=False)),
+    ('insert_nodes', 'oncopy', lambda x: navis.insert_nodes(x, [(int(x.nodes.node_id.values[x.nodes.parent_id.values >= 0][0]),
+                                                              int(x.nodes.parent_id.values[x.nodes.parent_id.values >= 0][0]))])),
+    ('rewire_skeleton', 'oncopy', lambda x: navis.rewire_skeleton(x, x.graph.copy())),
+    ('TreeNeuron(x, units=x.units)', 'rewrap', lambda x: navis.TreeNeuron(x, units=x.units_xyz if not x.is_isometric else x.units)),
 ]
+
+
+def _with_soma(x):
+    y = x.copy()
+    y.soma = int(y.nodes.node_id.values[y.nodes.parent_id.values >= 0][-1])
+    return y
+
+
+def _half_box(x):
+    bb = np.asarray(x.bbox, dtype=float)
+    lo, hi = bb[:, 0] - 1, bb[:, 1] + 1
+    hi = hi.copy()
+    hi[0] = (lo[0] + hi[0]) / 2 + 0.25
+    v = np.array([[a, b, c] for a in (lo[0], hi[0]) for b in (lo[1], hi[1]) for c in (lo[2], hi[2])])
+    f = np.array([[0, 1, 3], [0, 3, 2], [4, 7, 5], [4, 6, 7], [0, 5, 1], [0, 4, 5], [2, 3, 7], [2, 7, 6], [0, 2, 6], [0, 6, 4],
+                  [1, 5, 7], [1, 7, 3]])
+    return navis.Volume(v, f, name='box')
+
+
+def _inpl(x, f):
+    y = x.copy()
+    r = f(y)
+    if r is not None and r is not y:
+        raise AssertionError('in-place call returned a different object')
+    return y
+
+
 MESH_OPS = [
     ('x.copy()', 'copy', lambda x: x.copy()),
     ('MeshNeuron(x)', 'rewrap', lambda x: navis.MeshNeuron(x)),
@@ -824,6 +902,9 @@ MESH_OPS = [
     ('downsample_neuron', 'oncopy', lambda x: navis.downsample_neuron(x, 2)),
     ('make_dotprops', 'construct', lambda x: navis.make_dotprops(x, k=3)),
     ('pickle', 'pickle', lambda x: pickle.loads(pickle.dumps(x))),
+    ('x.validate', 'oncopy', lambda x: x.validate(inplace=False)),
+    ('x.copy() [deep]', 'copy', lambda x: _copy.deepcopy(x)),
+    ('NeuronList([x]).copy()', 'copy', lambda x: navis.NeuronList([x]).copy()[0]),
 ]
 DOT_OPS = [
     ('x.copy()', 'copy', lambda x: x.copy()),
@@ -831,12 +912,28 @@ DOT_OPS = [
     ('downsample_neuron', 'oncopy', lambda x: navis.downsample_neuron(x, 2)),
     ('make_dotprops', 'construct', lambda x: navis.make_dotprops(x, k=min(3, len(x.points)))),
     ('pickle', 'pickle', lambda x: pickle.loads(pickle.dumps(x))),
+    ('x.downsample', 'oncopy', lambda x: x.downsample(2, inplace=False)),
+    ('x.drop_fluff', 'oncopy', lambda x: x.drop_fluff(epsilon=1000.0, inplace=False)),
+    ('drop_fluff', 'oncopy', lambda x: navis.drop_fluff(x, epsilon=1000.0)),
+    ('x.recalculate_tangents', 'oncopy', lambda x: x.recalculate_tangents(min(3, len(x.points)), inplace=False)),
+    ('copy.deepcopy(x)', 'copy', lambda x: _copy.deepcopy(x)),
 ]
 VOX_OPS = [
     ('x.copy()', 'copy', lambda x: x.copy()),
     ('x.strip()', 'oncopy', lambda x: x.strip()),
     ('pickle', 'pickle', lambda x: pickle.loads(pickle.dumps(x))),
+    ('x.threshold', 'oncopy', lambda x: x.threshold(1, inplace=False)),
+    ('copy.deepcopy(x)', 'copy', lambda x: _copy.deepcopy(x)),
 ]
+# methods of Gen.Units.inplaceMethods → the sweep entry that exercises them (None: cannot run offline)
+METHOD_COVER = {('TreeNeuron', 'resample'): 'x.resample', ('TreeNeuron', 'downsample'): 'x.downsample', ('TreeNeuron', 'reroot'): 'x.reroot',
+                ('TreeNeuron', 'prune_distal_to'): 'x.prune_distal_to', ('TreeNeuron', 'prune_proximal_to'): 'x.prune_proximal_to',
+                ('TreeNeuron', 'prune_by_strahler'): 'x.prune_by_strahler', ('TreeNeuron', 'prune_twigs'): 'x.prune_twigs',
+                ('TreeNeuron', 'prune_at_depth'): 'x.prune_at_depth', ('TreeNeuron', 'cell_body_fiber'): 'x.cell_body_fiber',
+                ('TreeNeuron', 'prune_by_longest_neurite'): 'x.prune_by_longest_neurite', ('TreeNeuron', 'prune_by_volume'): 'x.prune_by_volume',
+                ('TreeNeuron', 'reload'): None, ('MeshNeuron', 'validate'): 'x.validate', ('Dotprops', 'downsample'): 'x.downsample',
+                ('Dotprops', 'drop_fluff'): 'x.drop_fluff', ('Dotprops', 'recalculate_tangents'): 'x.recalculate_tangents',
+                ('VoxelNeuron', 'strip'): 'x.strip()', ('VoxelNeuron', 'threshold'): 'x.threshold'}
 SWEEP = {'T': TREE_OPS, 'M': MESH_OPS, 'D': DOT_OPS, 'V': VOX_OPS}
 SWEEP_UNITS = [['str', '8 nm'], ['str', 'um'], ['str', '2 microns'], ['qty', 16, 'nm'], ['num', 2],
                ['tuple', [['str', '4 nm'], ['str', '4 nm'], ['str', '40 nm']]], ['str', '0.5 um'], None]
@@ -927,7 +1024,7 @@ def case_rewrap(ctx, case):
                    f'TreeNeuron(table) without units is {z.units!r}, expected 1 dimensionless', case)
 
 
-RUNNERS = {'rewrap': case_rewrap, 'setunits': case_setunits, 'arith': case_arith, 'convert': case_convert, 'map': case_map,
+RUNNERS = {'hist': E.case_hist, 'histmd': E.case_histmd, 'strsite': E.case_strsite, 'mapx': E.case_mapx, 'm2s': E.case_m2s, 'strzero': E.case_strzero, 'nlarith': E.case_nlarith, 'rewrap': case_rewrap, 'setunits': case_setunits, 'arith': case_arith, 'convert': case_convert, 'map': case_map,
            'strarg': case_strarg, 'sweep': case_sweep}
 
 
@@ -959,7 +1056,7 @@ def gen_cases(ctx):
             spec = ['qty', mags[0], un.replace('microns', 'um').replace('micron', 'um')]
         yield 'setunits', {'spec': spec, 'group': None, 'neuron': small}
     # (b) arithmetic
-    for i in range(ctx.budget(900, 10000)):
+    for i in range(ctx.budget(700, 7000)):
         kind = KINDS[i % 4]
         op = r.choice(['mul', 'mul', 'div', 'div', 'add', 'sub'])
         nd = gen_neuron(r, kind)
@@ -983,10 +1080,28 @@ def gen_cases(ctx):
         yield 'map', {'neuron': nd, 'length': L}
     # (e) string-valued distance arguments
     fns = ['prune_twigs', 'prune_at_depth', 'resample', 'heal', 'geodesic', 'prune_twigs_exact']
-    for i in range(ctx.budget(72, 600)):
+    for i in range(ctx.budget(60, 600)):
         u, _ = r.choice(STR_UNITS)
         yield 'strarg', {'neuron': tree_desc(r), 'fn': fns[i % len(fns)], 'units': u, 'k': r.choice([0.5, 2, 8, 0.125, 4]),
                          'steps': r.randint(1, 14), 'fmt': r.randint(0, 4)}
+    # (h) physical quantities after a history (warm caches -> arithmetic -> distance observables), every back-end
+    for i in range(ctx.budget(66, 800)):
+        yield 'hist', E.gen_hist(r, B_ALL[i % len(B_ALL)], i // len(B_ALL))
+    for i in range(ctx.budget(40, 400)):
+        yield 'histmd', E.gen_histmd(r, 'MD'[i % 2], i // 2)
+    # (s) every other map_units call site with a string argument, neuron in two units, every back-end
+    for i in range(ctx.budget(42, 420)):
+        yield 'strsite', E.gen_strsite(r, i)
+    # (z) zero / negative / huge lengths as strings: must behave like the numeric argument length/unit
+    for i in range(ctx.budget(24, 240)):
+        yield 'strzero', E.gen_strzero(r, i)
+    if not ctx.quick():
+        yield 'm2s', {'length': '1 micron'}
+    for i in range(ctx.budget(45, 450)):
+        yield 'nlarith', E.gen_nlarith(r, i)
+    # (m) map_units: NeuronList, on_error, function form, pint.Unit
+    for i in range(ctx.budget(80, 800)):
+        yield 'mapx', E.gen_mapx(r, i)
     # (f') re-wrapping: default keeps, explicit units override, bare table is dimensionless
     specs = [sp[0] for sp in SPELLINGS.values()] + BAD_UNITS[:2]
     for i in range(ctx.budget(40, 400)):
@@ -1037,7 +1152,12 @@ def run(ctx):
         'factor (number / 3-vector / 4-vector; list, tuple, array, int, np.float64; dyadic = exact comparison, decimal = 2^-40) × '
         'inplace; non-trivial when the factor is not the identity; convert: neuron × 12 targets; map: neuron units × 21 '
         'length forms + random; strarg: 6 functions × units × rescale factor × threshold half-way between integer path '
-        'lengths; sweep: every catalogued non-scaling operation × neuron type × 8 unit forms. distinct = JSON digest')
+        'lengths; sweep: every catalogued non-scaling operation (functions, methods, in-place and NeuronList forms; every method with '
+        '`inplace=` found in the source) × neuron type × 8 unit forms; hist: per back-end a deterministic core (all caches warm, then '
+        'each operator form once) + random histories of 1-3 steps with re-warming, 9 unit forms, scalar/4-vector/offset operands, '
+        'convert_units; histmd: cube MeshNeuron / Dotprops with up to 48 points (more than one KD-tree leaf), warm → operator(s); '
+        'strsite: 7 further map_units call sites × units × rescale factor × back-end; mapx / nlarith: NeuronList, on_error, '
+        'pint.Unit, elementwise arithmetic. distinct = JSON digest')
     ctx.extra['assumptions'] = [
         'pint parses unit / length strings (external): the model receives (magnitude, base unit) as parsed by pint',
         "pint's to_compact picks the SI prefix (external): the prefix is read off navis' output and given to the model; "
@@ -1045,11 +1165,40 @@ def run(ctx):
         'zero factors (ZeroDivisionError / inf) and negative scale factors are not generated',
         'IEEE rounding: dyadic factors are compared exactly, decimal factors and all unit magnitudes within 2^-40 relative',
         'VoxelNeuron.downsample / make_dotprops / mesh legitimately change the voxel size / unit and are not in the sweep',
+        'histories: a cached view is modelled by the coordinates it was computed from; which attributes are present after a '
+        'warming step is read off the navis object, their content is the model\'s; `_clear_temp_attr` deletes by literal name '
+        'match against TEMP_ATTR (the rule C02 pins from the source)',
+        'navis-fastcore computes in float32: inexact histories are compared within 2^-18 relative under that back-end; '
+        'round_smart keeps 8 decimals, so string-length comparisons are made only where length/unit has at most that many',
+        'thresholds of string-valued arguments lie half-way between integer path lengths; functions whose result depends on '
+        'ties between equally long branches are compared only for exactly representable (dyadic) histories',
     ]
     for kind, case in gen_cases(ctx):
         c = dict(case, kind=kind)
         ctx.case(c, nontrivial=nontrivial(kind, case), sample_every=97)
         run_case(ctx, kind, c)
+    # coverage of what the translator found in the current source (a note, never an alarm: a *new* call site or method
+    # is not a defect, it is a hole in this harness)
+    meta = (ctx.extra.get('generated_from_source', {}).get('files', {}) or {}).get('Units.lean', {})
+    done = set(ctx.hist.get('map_sites_exercised', {}))
+    miss = [s_ for s_ in meta.get('map_sites', []) if s_ not in done]
+    if not ctx.quick():
+        miss = [s_ for s_ in miss if 'resample_along_axis' not in s_]
+    else:
+        miss = [s_ for s_ in miss if 'resample_along_axis' not in s_ and 'mesh2skeleton' not in s_]
+    if miss:
+        ctx.notes.append(f'map_units call sites in the source that no stream exercised with a string argument: {miss}')
+    if 'sampling.resampling.resample_along_axis:interval' not in done:
+        ctx.notes.append('resample_along_axis raises for every input under pandas 3 (read-only `.values` assignment): its '
+                         '`interval` string argument cannot be exercised')
+    swept = {k_.split('/', 1)[1] for k_ in ctx.hist.get('sweep', {})}
+    for cname, ms in (meta.get('inplace_methods', {}) or {}).items():
+        for m_ in ms:
+            ent = METHOD_COVER.get((cname, m_), '?')
+            if ent is None:
+                continue
+            if ent == '?' or ent not in swept:
+                ctx.notes.append(f'method {cname}.{m_}(inplace=…) found in the source is not covered by the metadata sweep')
     errs = ctx.hist.get('sweep_errors', {})
     if errs:
         ctx.notes.append(f'sweep operations that raised (not evaluated): {sorted(errs)}')
